@@ -1328,7 +1328,10 @@ void Interpret::getUnsatCore() {
 void Interpret::getInterpolants(const ASTNode& n)
 {
     auto exps = *n.children;
-    vec<PTRef> grouping; // Consists of PTRefs that we want to group
+    // Every group is a list of assertions: a single name, or (and name ...).  The members of a
+    // conjunction are resolved one by one: building the conjunction as a term would merge
+    // duplicate members and collapse contradictory ones
+    std::vector<vec<PTRef>> grouping;
     LetRecords letRecords;
     letRecords.pushFrame();
     // as_const is just workaround to avoid the deprecated non-const call of getTermNames
@@ -1338,9 +1341,16 @@ void Interpret::getInterpolants(const ASTNode& n)
     }
     for (auto e : exps) {
         ASTNode& c = *e;
-        PTRef tr = parseTerm(c, letRecords);
-//        printf("Itp'ing a term %s\n", logic->pp(tr));
-        grouping.push(tr);
+        grouping.emplace_back();
+        bool const isConjunction = c.getType() == LQID_T and c.children and c.children->size() > 1
+            and strcmp((**c.children->begin()).getValue(), "and") == 0;
+        if (isConjunction) {
+            for (auto it = c.children->begin() + 1; it != c.children->end(); ++it) {
+                grouping.back().push(parseTerm(**it, letRecords));
+            }
+        } else {
+            grouping.back().push(parseTerm(c, letRecords));
+        }
     }
     letRecords.popFrame();
 
@@ -1351,33 +1361,17 @@ void Interpret::getInterpolants(const ASTNode& n)
     std::vector<ipartitions_t> partitionings;
     ipartitions_t p = 0;
     // We assume that together the groupings cover all query, so we ignore the last argument, since that should contain all that was missing at that point
-    for (int i = 0; i < grouping.size() - 1; i++)
+    for (std::size_t i = 0; i + 1 < grouping.size(); i++)
     {
-        PTRef group = grouping[i];
-        if (is_top_level_assertion(group))
-        {
-            int assertion_index = get_assertion_index(group);
-            assert(assertion_index >= 0);
-            setbit(p, static_cast<unsigned int>(assertion_index));
-        }
-        else {
-            bool ok = group != PTRef_Undef && logic->isAnd(group);
-            if (ok) {
-                Pterm const & and_t = logic->getPterm(group);
-                for (int j = 0; j < and_t.size(); j++) {
-                    PTRef tr = and_t[j];
-                    ok = is_top_level_assertion(tr);
-                    if (!ok) { break; }
-                    int assertion_index = get_assertion_index(tr);
-                    assert(assertion_index >= 0);
-                    setbit(p, static_cast<unsigned int>(assertion_index));
-                }
-            }
-            if (!ok) {
+        for (PTRef tr : grouping[i]) {
+            if (tr == PTRef_Undef or not is_top_level_assertion(tr)) {
                 // error in interpolation command
                 notify_formatted(true, "Invalid arguments of get-interpolants command");
                 return;
             }
+            int assertion_index = get_assertion_index(tr);
+            assert(assertion_index >= 0);
+            setbit(p, static_cast<unsigned int>(assertion_index));
         }
         partitionings.emplace_back(p);
     }
